@@ -10,7 +10,7 @@ pub fn meta() -> Meta {
     Meta {
         rule: "events = one whole iteration of TimeSeries::inclusive / exclusive(start, end, step): repeated next() until None plus one extra next(), and the same series through a for loop / collect. Expected: item k == start + k*step exactly (parts, scale of start), strictly increasing, count == #{k >= 0 : k*step < span} (exclusive) or <= span (inclusive) with span = reading of end's instant in start's scale - start (M-SCALE), None stays None. Series with an ET/TDB operand in a different scale are only generated with spans more than 100 ns away from a multiple of the step; spans whose end has no UTC pre-image are skipped. Generation: start in all nine scales (incl. before the reference epoch), end in the same or another scale, span = n*step + r with r in {0, 1 ns, step-1, random}, steps 1 ns..days, n <= 2000 (quick) plus a few series of 2-5 million items (thorough), series across leap seconds and century boundaries. Non-trivial = end in a different scale, r in {0, 1 ns, step-1}, crossing a leap second or century boundary, start before the reference, n >= 1000; distinct = distinct series hashes among those.",
         assumptions: &["M-SCALE / M-LEAP / M-DYN for the span"],
-        mandatory: &["series/exclusive", "series/inclusive", "series/cross-scale", "series/exact-multiple", "series/one-ns-over", "series/step-minus-one", "series/crosses-leap-second", "series/crosses-century", "series/start-before-reference", "series/ns-step", "series/empty-span"],
+        mandatory: &["series/exclusive", "series/inclusive", "series/cross-scale", "series/exact-multiple", "series/one-ns-over", "series/step-minus-one", "series/crosses-leap-second", "series/crosses-century", "series/start-before-reference", "series/ns-step", "series/empty-span", "series/long-span"],
         thorough_scale: 30,
         exhaustive_part: "none (sampled); item-by-item comparison of every yielded element",
     }
@@ -149,7 +149,7 @@ pub fn run(cfg: &Cfg, rep: &mut Rep) {
         let si = r.below(9) as usize;
         let ss = SCALES[si];
         let es = if r.chance(1, 2) { ss } else { gen::rand_scale(&mut r) };
-        let step = match r.below(8) {
+        let step: i128 = match r.below(8) {
             0 => 1,
             1 => r.range_i64(1, 1000) as i128,
             2 => unit_ns(*r.pick(&UNITS[..7])) * r.range_i64(1, 30) as i128,
@@ -159,12 +159,21 @@ pub fn run(cfg: &Cfg, rep: &mut Rep) {
             6 => NS_D,
             _ => r.range_i128(1, 10 * NS_D),
         };
-        let n = match r.below(6) {
+        let mut step = step;
+        let mut n = match r.below(6) {
             0 => r.below(4) as i128,
             1 => r.below(2000) as i128,
             2 => 1000 + r.below(1000) as i128,
             _ => r.below(300) as i128,
         };
+        if k % 5 == 0 {
+            // long spans: steps of days..years so that the series reaches centuries from its start
+            // (offsets beyond 2^63 and 2^64 ns, spans that are whole centuries plus a multiple of the step)
+            step = *r.pick(&[NS_D, 7 * NS_D, 30 * NS_D, 365 * NS_D, 36525 * NS_D / 4, NPC, NS_D + 1, 53 * NS_D]) * r.range_i64(1, 3) as i128;
+            let target = *r.pick(&[NPC, 2 * NPC, 3 * NPC, (1i128 << 63) + NS_D, (1i128 << 64) + NS_D, 6 * NPC]);
+            n = (target / step).min(1900) + r.range_i64(0, 40) as i128;
+            rep.class("series/long-span");
+        }
         let (rmd, tag): (i128, Vec<&str>) = match r.below(5) {
             0 => (0, vec!["series/exact-multiple"]),
             1 => (1.min(step - 1), if step > 1 { vec!["series/one-ns-over"] } else { vec!["series/exact-multiple"] }),
@@ -189,6 +198,8 @@ pub fn run(cfg: &Cfg, rep: &mut Rep) {
             1 => -gen::rand_count_within(&mut r, 2 * NPC).abs() - 1,
             _ => gen::rand_reading(&mut r, ss, &lats[si]),
         };
+        // whole-century remainders: span = j centuries + m*step
+        let span = if k % 5 == 0 && r.bool() { let j = r.range_i64(1, 3) as i128; j * NPC + (span / step).min(50) * step } else { span };
         // end: `span` after the reading of start's instant in the end's scale
         let ec = if es == ss {
             sc + span
